@@ -3,7 +3,7 @@
    applied to, [sc_obs] the observed outcome). *)
 From Coq Require Import ZArith NArith String List Bool. Import ListNotations.
 From TP Require Export Base.PyVal Base.PyEq Fields.FieldAst Fields.SetChain Fields.Doc Fields.Domain
-  Struct.Shapes Struct.Instance Struct.Entry Check.Fieldchk.
+  Struct.Shapes Struct.Instance Struct.Entry Check.Fieldchk Struct.EntrySites Gen.EntrySites.
 
 Record scase := {
   sc_tbl : table;            (* re.match oracle for the strings/patterns of this case *)
@@ -148,3 +148,87 @@ Definition smismatch (c : scase) : bool :=
 Definition sviolation (c : scase) : bool := sin_dom c && sspec_fail c.
 (* ... of which those where only the [stable] clause fails are the normalised-collision defect *)
 Definition sunstable (c : scase) : bool := sviolation c && negb (sin_thm_dom c).
+
+(* Localisation of a violation (used only to NAME it): positions, in the observed instance's
+   attribute list, of the attributes that do not conform to their declaration / are undeclared in a
+   closed class.  Empty for a failure of _required, of the hook, or of a nested instance. *)
+Definition sbad_attrs (c : scase) : list nat :=
+  match sc_obs c with
+  | Ok (PStruct cn a) =>
+      match find_class (sc_env c) cn with
+      | Some cd =>
+          indices_where (fun p => match find_field (c_fields cd) (fst p) with
+                                  | Some fd => negb (conf (sre c) (sc_env c) (fd_field fd) (snd p))
+                                  | None => negb (c_additional cd)
+                                  end) a 0
+      | None => []
+      end
+  | _ => []
+  end.
+
+(* The rows of today's entry-site table (Gen/EntrySites.v) that are not safe, by witness kind
+   (0 deser, 1 from_other(instance), 2 from_other(mapping), 3 clone, 4 cast_to, 5 copy, 6 deepcopy,
+   7 pickle): printed by the check; empty on a tree for which Props/C01.v builds. *)
+Definition all_site_kinds : list site_kind :=
+  [KDeser; KFromOther; KFromMapping; KClone; KCast; KCopy; KDeepCopy; KPickle].
+Definition unsafe_site_kinds : list nat :=
+  indices_where (fun k => negb (entry_site_ok entry_sites default_unpickle (wit_entry k))) all_site_kinds 0.
+
+(* All eight verdicts of a case in ONE evaluation (the harness used to evaluate eight separate
+   [indices_where] passes, each re-running the model and the spec): same definitions, shared
+   sub-results.  Order: smismatch, sviolation, sunstable, sin_dom, sin_thm_dom, sunmodelled,
+   scopy_raised, sstricter (Check/C01chkProofs.v: sflags_spec). *)
+Definition sflags (c : scase) : list bool :=
+  let m := smodel c in
+  let plan := entry_plan (sc_env c) (sc_cur c) (sc_entry c) in
+  let unm := match m with Raise Unmodelled => true | _ => false end in
+  let nonfin := snonfinite c in
+  let copyraised := match plan with PValue _ => negb (saccepted c) | _ => false end in
+  let dom := negb nonfin && cur_valid c && plan_dom plan in
+  let thm := dom && entry_dom (sre c) (sc_env c) (sc_cur c) (sc_entry c) in
+  let stricter := dom && negb thm &&
+                  match m, sc_obs c with Ok _, Raise x => is_te_ve x | _, _ => false end in
+  let viol := dom && sspec_fail c in
+  let mism := sc_cmp c && negb unm && negb nonfin && negb copyraised && negb stricter &&
+              negb (sres_equiv c m (sc_obs c)) in
+  [mism; viol; viol && negb thm; dom; thm; unm; copyraised; stricter].
+
+(* ---- deserialization with its real pre-processing (Ser/Deserialize.v, Ser/DeserEntry.v): one case =
+   Deserializer(cls).deserialize(doc) [dc_ku = None] or deserialize_structure(cls, doc) [Some true] on a
+   JSON-shaped document, with the observed outcome *)
+From TP Require Export Ser.Json Ser.Serialize Ser.Deserialize Ser.DeserEntry.
+
+Record dcase := { dc_tbl : table; dc_env : env; dc_ens : enums; dc_flags : dflags; dc_ku : option bool;
+                  dc_cls : pystr; dc_doc : pyval; dc_obs : res pyval }.
+
+Definition DFUEL : nat := 8.
+
+Definition dmodel (c : dcase) : res pyval :=
+  deserialize (tbl_match (dc_tbl c)) (dc_env c) (dc_ens c) (dc_flags c) DFUEL (dc_ku c) (dc_cls c) (dc_doc c).
+
+Definition ddeclines (c : dcase) : bool := match dmodel c with Raise x => model_exn x | _ => false end.
+
+(* hypothesis of C01_deserialize_sound *)
+Definition ddom (c : dcase) : bool :=
+  match find_class (dc_env c) (dc_cls c) with
+  | Some cd => deser_dom (tbl_match (dc_tbl c)) (dc_env c) (dc_ens c) (dc_flags c) (pred DFUEL)
+                         (adjust_keep_undefined cd (dc_ku c)) (dc_cls c) (dc_doc c)
+  | None => false
+  end.
+
+Definition dres_equiv (m o : res pyval) : bool :=
+  match m, o with
+  | Ok x, Ok y => inst_equiv x y
+  | Raise e1, Raise e2 => exn_equiv e1 e2
+  | _, _ => false
+  end.
+
+(* verdicts: model and typedpy differ; hypothesis of the theorem holds; model declines;
+   the theorem's conclusion fails of the MODEL's own result (never, by C01_deserialize_sound) *)
+Definition dflags_of (c : dcase) : list bool :=
+  let m := dmodel c in
+  let decl := match m with Raise x => model_exn x | _ => false end in
+  let d := ddom c in
+  [ negb decl && negb (val_nonfinite (dc_doc c)) && negb (dres_equiv m (dc_obs c));
+    d; decl;
+    d && match m with Ok x => negb (inst_ok (tbl_match (dc_tbl c)) (dc_env c) x) | Raise _ => false end ].
